@@ -72,11 +72,25 @@ fn dispatch(sx: &Sx) -> String {
 fn main() {
     let path = std::env::args().nth(1).expect("usage: vharness <casefile>");
     std::panic::set_hook(Box::new(|_| {}));
+    // watchdog: a case that does not return within the limit ends the process with status 124; every
+    // finished case has been flushed, so the runner knows which case it was and re-runs the rest
+    let limit = std::env::var("VH_CASE_TIMEOUT").ok().and_then(|s| s.parse::<u64>().ok()).unwrap_or(20);
+    let started = std::sync::Arc::new(std::sync::Mutex::new(std::time::Instant::now()));
+    {
+        let started = started.clone();
+        std::thread::spawn(move || loop {
+            std::thread::sleep(std::time::Duration::from_millis(200));
+            if started.lock().unwrap().elapsed().as_secs() >= limit {
+                std::process::exit(124);
+            }
+        });
+    }
     let f = std::io::BufReader::new(std::fs::File::open(path).expect("open case file"));
     let out = std::io::stdout();
     let mut out = std::io::BufWriter::new(out.lock());
     for (i, line) in f.lines().enumerate() {
         let line = line.expect("read");
+        *started.lock().unwrap() = std::time::Instant::now();
         let res = match sexp::parse(&line) {
             Err(e) => format!("harness-error {e}"),
             Ok(sx) => match catch_unwind(AssertUnwindSafe(|| dispatch(&sx))) {
@@ -94,5 +108,6 @@ fn main() {
             },
         };
         writeln!(out, "{i}\t{res}").unwrap();
+        out.flush().unwrap();
     }
 }
